@@ -283,6 +283,25 @@ def shared_family():
             o = mk(b)
             return [{'a': [o, o]}, {'a': [o], 'b': [o]}]
         fam.append(('shared-coll-' + name, spec4, mk4))
+    # an item that is also referenced from outside the collection whose sweeten restructures the items
+    item = {'name': 'It', 'params': [('id', 'str'), ('v', 'int'), ('w', 'str', 'dw')]}
+    shop_l = {'name': 'Shop', 'params': [('items', ('list', ('cls', 'It')))],
+              'hooks': {'sweeten': [('seq_to_map', 'items', 'id', 'v')], 'savorize': [('map_to_seq', 'items', 'id', 'v')],
+                        'recognize': [('require_attr', 'items')]}}
+    shop_d = {'name': 'Shop', 'params': [('items', ('dict', 'str', ('cls', 'It')))],
+              'hooks': {'sweeten': [('index_to_map', 'items', 'id', 'v')], 'savorize': [('map_to_index', 'items', 'id', 'v')],
+                        'recognize': [('require_attr', 'items')]}}
+    holder = {'name': 'Holder', 'params': [('first', ('cls', 'It')), ('shop', ('cls', 'Shop')), ('last', ('opt', ('cls', 'It')), None)]}
+
+    def mk_shared_items(b, as_dict):
+        It, Shop, H = b.classes['It'], b.classes['Shop'], b.classes['Holder']
+        i1, i2 = It('i1', 1), It('i2', 2, 'x')
+        coll = (lambda its: collections.OrderedDict((i.id, i) for i in its)) if as_dict else list
+        return [H(i1, Shop(coll([i1, i2]))), H(i2, Shop(coll([i1, i2])), i1), H(It('i3', 3), Shop(coll([i1])), i1)]
+    fam.append(('shared-item-seq-sweeten', {'classes': BASE + [item, shop_l, holder], 'root': ('cls', 'Holder')},
+                lambda b: mk_shared_items(b, False)))
+    fam.append(('shared-item-index-sweeten', {'classes': BASE + [item, shop_d, holder], 'root': ('cls', 'Holder')},
+                lambda b: mk_shared_items(b, True)))
     # one object of a class whose sweeten REPLACES the node (short form), referenced twice
     kshort = _K([('v', 'int')], hooks={'sweeten': [('attr_to_scalar', 'v')], 'savorize': [('scalar_to_attr', 'v')],
                                        'recognize': [('permissive',)]})
